@@ -75,7 +75,8 @@ def gen(rng, tier):
             per_pop = {q: rng.randint(nsamp, nsamp + 2) for q in ["CEU", "YRI", "AMR", "EAS"]}
         case = dict(violation=v, nsamp=str(nsamp), pops=pops, lines=lines, chroms=chroms, sep=sep, popsize=rng.choice([1, 5, 10, 50]), only_bp=rng.random() < 0.4, no_repl=rng.random() < 0.5, per_pop=per_pop, region=None, seed=rng.randrange(2**31), map_missing=None, bad_map_line=None, bad_sample=None, drop_pop=None, mapdir_ok=True, line_idx=rng.randrange(len(lines)))
         if rng.random() < 0.3:
-            case["region"] = {"chr": chroms[0], "start": 150, "end": 450}
+            st = rng.choice([100, 150, 250])
+            case["region"] = {"chr": chroms[0], "start": st, "end": rng.choice([e for e in (150, 250, 450, 600, 5000) if e > st])}
             case["chroms"] = [chroms[0]]
         li = case["line_idx"]
         if v == "samplesNotInt":
@@ -108,7 +109,13 @@ def gen(rng, tier):
         elif v == "missingMap":
             case["map_missing"] = rng.choice(case["chroms"])
         elif v == "badMapLine":
-            case["bad_map_line"] = [rng.choice(case["chroms"]), rng.choice([3, 5])]
+            # any line of the map may be the malformed one – also one lying beyond the end of a requested region
+            case["bad_map_line"] = [rng.choice(case["chroms"]), rng.choice([3, 5]), rng.choice([0, 2, 3, 5])]
+            if rng.random() < 0.5:
+                c = case["bad_map_line"][0]
+                case["region"] = {"chr": c, "start": rng.choice([100, 150]), "end": rng.choice([150, 250])}
+                case["chroms"] = [c]
+                case["bad_map_line"][2] = rng.choice([3, 5])  # markers 400 / 600: beyond the region's end
         elif v == "popsizeNonPos":
             case["popsize"] = rng.choice([0, -5])
         elif v == "popsizeNotInt":
@@ -159,7 +166,7 @@ def materialise(case):
         with open(md / f"genetic_map_chr{c}.map", "w") as f:
             for i, (bp, cm) in enumerate(MAPS[c]):
                 fields = [c, f"rs{bp}", str(cm), str(bp)]
-                if case["bad_map_line"] and case["bad_map_line"][0] == c and i == 2:
+                if case["bad_map_line"] and case["bad_map_line"][0] == c and i == (case["bad_map_line"][2] if len(case["bad_map_line"]) > 2 else 2):
                     fields = fields[:3] if case["bad_map_line"][1] == 3 else fields + ["extra"]
                 f.write(" ".join(fields) + "\n")
     # reference panel + sample info
@@ -218,6 +225,71 @@ def impl(case):
     finally:
         sg._simulate = orig
     out["generations_simulated_before_outcome"] = len(sims)
+    return out
+
+
+def gen_cli(rng, tier):
+    """the same inputs through the command line (the glue in __main__.py is part of what the user relies on)"""
+    n = 60 if tier == "quick" else 1500
+    for case in gen(rng, "thorough"):
+        if case["violation"] in ("mapdir", "popsizeNotInt"):
+            continue  # click itself refuses a missing directory / a non-integer option value
+        yield case
+        n -= 1
+        if n <= 0:
+            return
+
+
+def impl_cli(case):
+    import haptools.sim_genotype as sg
+    from click.testing import CliRunner
+    from haptools.__main__ import main
+
+    d, samples, info = materialise(case)
+    sims = []
+    orig = sg._simulate
+
+    def counting(*a, **k):
+        sims.append(int(a[0]))
+        return orig(*a, **k)
+
+    args = ["simgenotype", "--model", str(d / "model.dat"), "--mapdir", str(d / "maps"), "--popsize", str(case["popsize"]), "--seed", str(case["seed"]), "--ref_vcf", str(d / "ref.vcf.gz"), "--sample_info", str(d / "info.tab"), "--pop_field", "--sample_field", "--out", str(d / "out.vcf.gz"), "--verbosity", "CRITICAL"]
+    if case["region"]:
+        args += ["--region", f"{case['region']['chr']}:{case['region']['start']}-{case['region']['end']}"]
+    else:
+        args += ["--chroms", ",".join(case["chroms"])]
+    if case["no_repl"]:
+        args.append("--no_replacement")
+    if case["only_bp"]:
+        args.append("--only_breakpoint")
+    sg._simulate = counting
+    try:
+        r = CliRunner().invoke(main, args, catch_exceptions=True)
+    finally:
+        sg._simulate = orig
+    if r.exit_code == 0:
+        heads = [l for l in open(d / "out.bp") if l.startswith("Sample_")] if (d / "out.bp").exists() else []
+        from haptools.data import Breakpoints
+
+        tiles = False
+        try:
+            b = Breakpoints.load(str(d / "out.bp"))
+            chroms = [23 if c == "X" else int(c) for c in case["chroms"]]
+            tiles = all([int(x["chrom"]) for x in st if int(x["bp"]) == SD.MAX] == chroms and all(int(p["bp"]) < int(q["bp"]) for p, q in zip(st, st[1:]) if p["chrom"] == q["chrom"]) for v in b.data.values() for st in v)
+        except Exception:  # noqa
+            pass
+        out = {"accepted": True, "popsize": sims[0] if sims else -1, "haplotypes": len(heads), "tiles": tiles}
+    else:
+        e = r.exception
+        reason = None
+        if type(e) is Exception:
+            for pat, rs in MSG2REASON:
+                if re.search(pat, str(e)):
+                    reason = rs
+                    break
+        late = type(e) is Exception and bool(re.search(r"No available sample", str(e)))
+        out = {"accepted": False, "reason": reason, "exc": type(e).__name__, "msg": str(e)[:120], "late_no_sample": late}
+    out["generations_simulated_before_outcome"] = len(sims) if not out["accepted"] else 0
     return out
 
 
@@ -346,8 +418,23 @@ CHECK = Check(
             nontrivial=lambda c, o: C.jdump(c),
             rule="inputs derived from a well-formed base (1-4 samples, 2-3 source populations, 1-4 generation lines, 1-4 chromosomes incl. X, any whitespace separation, optional region, with/without --only_breakpoint and --no_replacement): 3 of every 21 cases are well-formed, each of the other 18 violates exactly one documented requirement by a clear margin (in the header or in a randomly chosen generation line / map / sample-info line); validate_params + simulate_gt + write_breakpoints (+ output_vcf) are run with _simulate counted, refusals are mapped from their message to a reason enum and compared with the Lean pipeline on the tokenised input",
         ),
+        Section(
+            name="command_line",
+            theorems=["C20.accepted_iff", "C20.effective_popsize", "C20.accepts_wellformed"],
+            gen=gen_cli,
+            impl=impl_cli,
+            model_req=model_req,
+            model_obs=model_obs,
+            equal=equal,
+            oracle=oracle,
+            describe=describe,
+            setup=setup,
+            teardown=teardown,
+            nontrivial=lambda c, o: C.jdump(c),
+            rule="the same generator through `haptools simgenotype` (click CliRunner: --model/--mapdir/--chroms or --region/--popsize/--seed/--ref_vcf/--sample_info/--no_replacement/--only_breakpoint): exit status, the refusal's message mapped to the reason enum, the population size _simulate is first called with, the haplotype count and tiling of the written .bp file – compared with the same Lean pipeline, so that the option glue of __main__.py is covered as well",
+        ),
     ],
     trusted=["int()/float() token conversion as mirrored by the harness tokeniser", "glob/regex map-file discovery (the harness counts matching files with the same pattern)", "np.float32 sum of fractions agrees with the exact decimal sum to within the 1e-6 tolerance when the violation is >= 1e-3 (clear margin)"],
     assumptions=["malformed inputs violate exactly one requirement by a clear margin; well-formed ones satisfy all with margin (as quantified in the property)"],
-    anchors=[("haptools/sim_genotype.py", ["validate_params", "_prepare_coords", "simulate_gt"])],
+    anchors=[("haptools/__main__.py", ["simgenotype"]), ("haptools/sim_genotype.py", ["validate_params", "_prepare_coords", "simulate_gt"])],
 )
